@@ -56,6 +56,16 @@ META = {
         note=COMMON_NOTE + "Partial: see evidence.coverage.partial for the strategies/flows whose theorem is not yet proved.",
         technique="Lean 4 proof (induction) + differential correspondence with the Go strategies",
     ),
+    "C16": dict(
+        text="Kernel-checked theorems over the Lean model of the device grant: tokens only for a live, approved, unexpired device code presented as an exact copy by the authenticated client that started the flow; over all histories a device code yields tokens at most once, for the reference store (delete on use) and for a store following the documented mark-as-used contract; tied to /repo by the history correspondence over both store variants and monitored on implementation traces.",
+        note=COMMON_NOTE + "Sequential fault-free runs.",
+        technique="Lean 4 proof (success-path characterisation + stable-deadness invariant over histories) + differential correspondence + trace monitor",
+    ),
+    "C17": dict(
+        text="Kernel-checked theorems over the Lean model of PAR: a request_uri starts an authorization only for the pushing client and only while its record exists; over all histories it is used at most once (lookup consumes it); the request handed to the handlers is rebuilt from the pushed record alone; pushes need client authentication and must not contain a request_uri; enforcement refuses unpushed requests. Tied to /repo by the history correspondence and monitored on implementation traces.",
+        note=COMMON_NOTE,
+        technique="Lean 4 proof (success-path characterisation + invariant over histories) + differential correspondence + trace monitor",
+    ),
     "C20": dict(
         text="Kernel-checked theorems over the Lean model of errors.go rendering and of every Write* function, for all byte strings and both formats: with debug exposure off every error writer's complete response is invariant under blanking every debug field and wrapped message of the Go error; error_debug exists iff legacy format and exposure on; the RFC-format description contains no double quote; status and error code equal the error's table entry; every writer ends with exactly one Cache-Control: no-store and Pragma: no-cache even against responder-supplied headers; the model equals a table-style specification wherever that prescribes. Tied to /repo by a differential run of the real writers into a ResponseRecorder, read back with independent JSON/URL/HTML parsers, plus a raw leak scan.",
         note=COMMON_NOTE + "Rendering half; the storage half is covered by the history driver's call-log taint scan (see partial). JSON/URL/HTML escaping are parameters validated differentially; i18n catalog and custom ResponseModeHandler not modelled.",
